@@ -1284,8 +1284,10 @@ class OperatorVectorSum(Operator):
             # or share memory with it
             return self.operator(x) + self.vector
         else:
+            # The vector is stored by reference and may be `out` itself
+            vector = self.vector.copy() if out is self.vector else self.vector
             self.operator(x, out=out)
-            out += self.vector
+            out += vector
             return out
 
     def derivative(self, point):
